@@ -77,7 +77,8 @@ Acts(w, ids, i) ==
          IF e.act = "throttle"
          THEN Acts(Emit([w EXCEPT !.throttle = e.arg], Ev("throttle", 0, 0, "", "", e.arg)), ids, i + 1)
          ELSE IF e.act \in {"quit", "gquit"}
-         THEN Acts([w EXCEPT !.quit = e.act], ids, i + 1)
+         THEN Acts(Emit([w EXCEPT !.quit = e.act],
+                        Ev("ask_quit", 0, 0, "", "", IF e.act = "gquit" THEN 1 ELSE 0)), ids, i + 1)
          ELSE Acts(w, ids, i + 1)
 
 AfterHandler(w, t) ==
